@@ -21,10 +21,13 @@ LenField(n) == IF n >= LongLen THEN <<255, n \div 256, n % 256>> ELSE <<n>>
 \* BytesPerPage exponents that can express `from` (chosen by from + sz, so that all encodings occur), the upper
 \* nibble of the third value byte (BytesLockedPerLockBit / RFU) takes arbitrary values.
 NBytes(c) == LET n0 == IF c.sz = 0 THEN 256 ELSE c.sz IN IF c.t = 1 THEN (n0 + 7) \div 8 ELSE n0
-Exps(from) == SelectSeq(<<2, 3, 4, 5>>, LAMBDA e : from \div Pow2(e) <= 15 /\ from % Pow2(e) <= 15)
-ExpOf(c) == LET es == Exps(c.from) IN es[((c.from + c.sz) % Len(es)) + 1]
-CtlTlv(c) == LET e == ExpOf(c) IN
-    <<c.t, 3, (c.from \div Pow2(e)) * 16 + (c.from % Pow2(e)), c.sz, ((c.from * 5 + c.sz) % 16) * 16 + e>>
+\* the whole encoding space of the position byte: every <<e, pa>> with pa * 2^e + bo = from, pa and bo in 0..15,
+\* e in 0..5 - including bo >= 2^e (non-canonical encodings of the same address)
+Encs(from) == SelectSeq([i \in 1..96 |-> <<(i - 1) \div 16, (i - 1) % 16>>],
+                        LAMBDA x : from >= x[2] * Pow2(x[1]) /\ from - x[2] * Pow2(x[1]) <= 15)
+EncOf(c) == LET es == Encs(c.from) IN es[((c.from * 3 + c.sz * 5) % Len(es)) + 1]
+CtlTlv(c) == LET e == EncOf(c)[1]  pa == EncOf(c)[2] IN
+    <<c.t, 3, pa * 16 + (c.from - pa * Pow2(e)), c.sz, ((c.from * 5 + c.sz) % 16) * 16 + e>>
 CtlSet(cs) == UNION {(cs[i].from) .. (cs[i].from + NBytes(cs[i]) - 1) : i \in DOMAIN cs}
 LockSet(cs) == UNION {IF cs[i].t = 1 THEN (cs[i].from) .. (cs[i].from + NBytes(cs[i]) - 1) ELSE {} : i \in DOMAIN cs}
 Stream(pad, prop, cs, oldn) ==
@@ -116,6 +119,12 @@ W_Mem256     == ~(pc = "done" /\ \E b \in DataStart(lay) .. (lay.off - 5) :
 \* every BytesPerPage exponent 2..4 occurs in some control TLV
 W_Exp(e)     == ~(pc = "done" /\ \E b \in DataStart(lay) .. (lay.off - 5) :
                         Byte(lay.mem0, b) \in {1, 2} /\ Byte(lay.mem0, b + 1) = 3 /\ Byte(lay.mem0, b + 4) % 16 = e)
+\* a control TLV whose ByteOffset is >= its page size and shares a bit with the shifted PageAddr
+W_NonCanon   == ~(pc = "done" /\ \E b \in DataStart(lay) .. (lay.off - 5) :
+                    /\ Byte(lay.mem0, b) \in {1, 2} /\ Byte(lay.mem0, b + 1) = 3
+                    /\ LET pos == Byte(lay.mem0, b + 2)  e == Byte(lay.mem0, b + 4) % 16 IN
+                       /\ pos % 16 >= Pow2(e) /\ pos \div 16 > 0
+                       /\ (((pos \div 16) * Pow2(e)) & (pos % 16)) # 0)
 W_Exp2 == W_Exp(2)
 W_Exp3 == W_Exp(3)
 W_Exp4 == W_Exp(4)
